@@ -199,6 +199,10 @@ def classify(res):
     if res.get("fuzzy_dom"):
         return "F-fuzzy-raw-precedence"
     edits = res["case"]["edits"]
+    body = sem.body_story_index(res["case"]["doc"])
+    if any(e.get("state") in ("cross_ins", "ins") and e.get("si") is not None and e["si"] != body for e in edits):
+        # the changed words may lie in a pending insertion of a header / footer: looked up in the main part only
+        return "F-insertion-in-header-not-editable"
     for i, e in enumerate(edits):
         if any(j != i and e["target"] and e["target"] in (o["new"] or "") for j, o in enumerate(edits)):
             return "F-target-in-new-text-of-batch"
